@@ -16,7 +16,7 @@ From Coq Require Import List NArith ZArith Bool.
 From KV Require Import Lib.Bits Lib.Bytes Lib.Crc Spec.RecordFormat Model.Records
   Proofs.RecordsCodec Proofs.RecordsSet Proofs.RecordsWriters Proofs.RecordsLegacy
   Proofs.RecordsReaders Proofs.RecordsConn Proofs.RecordsFetch Proofs.RecordsV1
-  Proofs.RecordsReadersV1 Model.Pages Proofs.PagesProofs.
+  Proofs.RecordsReadersV1 Model.Pages Proofs.PagesProofs Proofs.PagesReadFrom.
 Import ListNotations.
 Open Scope Z_scope.
 
@@ -211,6 +211,29 @@ Theorem C05_pooled_unreferenced : forall ops s, run s0 ops = Some s ->
   (forall b bf, nth_error (s_bufs s) b = Some bf -> b_live bf = true -> ~ In p (b_pages bf)).
 Proof. exact pooled_unreferenced. Qed.
 Print Assumptions C05_pooled_unreferenced.
+
+(* pageBuffer.ReadFrom (the loop of protocol/buffer.go: allocate when there is no page or the
+   tail page is full, else copy min(free, remaining) bytes behind the bytes of the tail page,
+   stop when a copy was shorter than the free space): a buffer holding k bytes (any fill of
+   its tail page, in particular a PARTLY filled one) that reads n bytes ends up holding the
+   same k bytes followed by exactly those n bytes — no bound on k and n — the invariant is
+   kept and every live ref still reads the same bytes; and with fresh pages it always
+   completes (two rounds consume at least one byte).
+   buf_ok s b l: buffer b is live with the duplicate-free page list l. *)
+Theorem C05_pages_read_from : forall fuel s b l data src s',
+  Inv s -> buf_ok s b l -> pb_read_from fuel s b data src = Some s' ->
+  Inv s' /\
+  (exists l', buf_ok s' b (l ++ l')) /\
+  buf_content s' b = buf_content s b ++ data /\
+  (forall r bytes, read_ref s r = Some bytes -> read_ref s' r = Some bytes).
+Proof. exact pb_read_from_spec. Qed.
+Print Assumptions C05_pages_read_from.
+
+Theorem C05_pages_read_from_total : forall fuel s b l data,
+  Inv s -> buf_ok s b l -> 2 * length data + 3 <= fuel ->
+  exists s', pb_read_from fuel s b data [] = Some s'.
+Proof. exact pb_read_from_total. Qed.
+Print Assumptions C05_pages_read_from_total.
 Open Scope Z_scope.
 
 (* ---- non-vacuity: concrete instances meeting the hypotheses ---- *)
@@ -249,3 +272,21 @@ Example C05_nonvacuous_pages :
     read_ref s1 0 = Some [2%N; 3%N] /\ read_ref s2 0 = Some [2%N; 3%N] /\ read_ref s2 1 = None /\
     p_data (get_page s2 1) = [9%N; 9%N; 9%N].
 Proof. cbn zeta. eexists. eexists. split; [vm_compute; reflexivity|]. split; [vm_compute; reflexivity|]. vm_compute. repeat split. Qed.
+
+(* ReadFrom into a buffer whose tail page holds all but 5 bytes of a page: 12 more bytes cross
+   the page boundary at a non-aligned position and all arrive, in order, on two pages *)
+Example C05_nonvacuous_read_from :
+  let k := 256 * 256 - 5 in
+  let ops := [ONewBuf; ONewPage 0 None; OAppend 0 (repeat 7%N k)] in
+  let data := [1; 2; 3; 4; 5; 6; 7; 8; 9; 10; 11; 12]%N in
+  match run s0 ops with
+  | Some s1 =>
+    match pb_read_from 40 s1 0 data [] with
+    | Some s2 =>
+      (if list_eq_dec N.eq_dec (skipn k (buf_content s2 0)) data then true else false) &&
+      (if list_eq_dec Nat.eq_dec (map (fun p => length (p_data p)) (s_pages s2)) [256 * 256; 7] then true else false)
+    | None => false
+    end
+  | None => false
+  end = true.
+Proof. vm_compute. reflexivity. Qed.
